@@ -957,7 +957,9 @@ def raw_text_stream(ctx, drv, tk_texts):
             for el, (nm, t) in zip(els, raws):
                 kids = list(el.contents)
                 want_cls = Script if nm == "script" else Stylesheet
-                if el.name != nm or (len(kids) != (1 if t else 0)) or (t and (type(kids[0]) is not want_cls or str(kids[0]) != t)):
+                # the builder's rule for a string of ASCII whitespace only outside <pre>/<textarea> (`normalise`; C03): one "\n" or " "
+                want = t if t.strip(" \n\t\x0c\r") else ("\n" if "\n" in t else " ")
+                if el.name != nm or (len(kids) != (1 if t else 0)) or (t and (type(kids[0]) is not want_cls or str(kids[0]) != want)):
                     direct = False
         holds = same_stream and got == nm_ and got == exp and direct
         if ok:
